@@ -129,7 +129,14 @@ type hUniverse struct {
 
 func newUniverse(r *RNG, nUsers, nAuth, nIDs int) *hUniverse {
 	u := &hUniverse{origin: pick(r, honestOrigins)}
+	near := r.P(1, 3)
 	for i := 0; i < nUsers; i++ {
+		if near && i > 0 {
+			// user handles that differ only by trailing NUL bytes, or by a 256-byte tail: different users all the same
+			tail := pick(r, [][]byte{make([]byte, i), make([]byte, 256*i), append(make([]byte, 255), byte(i))})
+			u.users = append(u.users, append(append([]byte{}, u.users[0]...), tail...))
+			continue
+		}
 		u.users = append(u.users, []byte(fmt.Sprintf("user-%d", i)))
 	}
 	fmts := []string{"none", "packed-self", "packed-x5c", "fido-u2f", "none", "packed-self"}
